@@ -201,6 +201,10 @@ func (server *Server) LRange(conn *redis.Conn, key string, start int, stop int) 
 		return nil, err
 	}
 
+	if !db.HasRecord(key) {
+		return redis.NewArrayMessage(), nil
+	}
+
 	_, list, err := db.GetListRecord(key)
 	if err != nil {
 		return nil, err
@@ -222,6 +226,10 @@ func (server *Server) LIndex(conn *redis.Conn, key string, idx int) (*redis.Mess
 		return nil, err
 	}
 
+	if !db.HasRecord(key) {
+		return redis.NewNilMessage(), nil
+	}
+
 	_, list, err := db.GetListRecord(key)
 	if err != nil {
 		return nil, err
@@ -239,6 +247,10 @@ func (server *Server) LLen(conn *redis.Conn, key string) (*redis.Message, error)
 	db, err := server.GetDatabase(conn.Database())
 	if err != nil {
 		return nil, err
+	}
+
+	if !db.HasRecord(key) {
+		return redis.NewIntegerMessage(0), nil
 	}
 
 	_, list, err := db.GetListRecord(key)
